@@ -14,6 +14,7 @@ Three pieces live here:
   RvEngine the flow.Engine subclass (one per flavour).
 """
 import copy
+import os
 import re
 from .flow import Engine
 
@@ -23,6 +24,10 @@ from .flow import Engine
 FIX_CONV = False    # F-07: to_sync/to_async carry the closed flag
 FIX_FUT = False     # F-35: futures test the handle's closed flag
 FIX_CLONE = False   # F-34: clone of a closed handle is closed
+# (for trying a patched scratch copy together with VERIF_REPO: VERIF_RV_FIXMASK=111)
+_m = os.environ.get("VERIF_RV_FIXMASK")
+if _m and re.fullmatch(r"[01]{3}", _m):
+    FIX_CONV, FIX_FUT, FIX_CLONE = (ch == "1" for ch in _m)
 FIXMASK = "".join("1" if b else "0" for b in (FIX_CONV, FIX_FUT, FIX_CLONE))
 
 ARITY = {"ts": 3, "s": 3, "tr": 2, "r": 2, "rt": 2, "cl": 2, "dh": 2, "cn": 3, "cv": 2, "ob": 2,
